@@ -299,3 +299,89 @@ func (g GJ) Equal(h GJ, bits bool) bool {
 
 // NumVertices counts stored vertices.
 func (g GJ) NumVertices() int { return len(g.Flatten()) }
+
+// SharedGeom builds the geometry with ALL its point lists cut out of one flat array as consecutive two-index
+// sub-slices (`flat[a:b]`, `flat[b:c]`, ...), the way a caller that decoded its coordinates into one buffer holds them:
+// every list has spare capacity, and the element just past its end is the first vertex of the next list. It returns the
+// geometry and a function that reports whether the flat array still holds the original coordinates - a library call
+// that appends to (or writes into) a list it was given changes it. Point and *Bounds values carry no slice and are
+// built as usual.
+func SharedGeom(g GJ) (geom.Geom, func() string) {
+	var flat []geom.Point
+	var collect func(g GJ)
+	collect = func(g GJ) {
+		switch g.T {
+		case "MultiPoint", "LineString":
+			flat = append(flat, toPts(g.Pts)...)
+		case "MultiLineString", "Polygon":
+			for _, r := range g.Rings {
+				flat = append(flat, toPts(r)...)
+			}
+		case "MultiPolygon":
+			for _, p := range g.Polys {
+				for _, r := range p {
+					flat = append(flat, toPts(r)...)
+				}
+			}
+		case "GeometryCollection":
+			for _, m := range g.Geoms {
+				collect(m)
+			}
+		}
+	}
+	collect(g)
+	flat = append(flat, geom.Point{X: 12345.678, Y: -8765.4321}) // a sentinel after the last list
+	orig := append([]geom.Point(nil), flat...)
+	pos := 0
+	take := func(n int) []geom.Point {
+		s := flat[pos : pos+n]
+		pos += n
+		return s
+	}
+	var build func(g GJ) geom.Geom
+	build = func(g GJ) geom.Geom {
+		switch g.T {
+		case "MultiPoint":
+			return geom.MultiPoint(take(len(g.Pts)))
+		case "LineString":
+			return geom.LineString(take(len(g.Pts)))
+		case "MultiLineString":
+			out := make(geom.MultiLineString, len(g.Rings))
+			for i, r := range g.Rings {
+				out[i] = geom.LineString(take(len(r)))
+			}
+			return out
+		case "Polygon":
+			out := make(geom.Polygon, len(g.Rings))
+			for i, r := range g.Rings {
+				out[i] = take(len(r))
+			}
+			return out
+		case "MultiPolygon":
+			out := make(geom.MultiPolygon, len(g.Polys))
+			for i, p := range g.Polys {
+				out[i] = make(geom.Polygon, len(p))
+				for j, r := range p {
+					out[i][j] = take(len(r))
+				}
+			}
+			return out
+		case "GeometryCollection":
+			out := make(geom.GeometryCollection, len(g.Geoms))
+			for i, m := range g.Geoms {
+				out[i] = build(m)
+			}
+			return out
+		}
+		return g.Geom()
+	}
+	gg := build(g)
+	return gg, func() string {
+		for i := range orig {
+			if math.Float64bits(orig[i].X) != math.Float64bits(flat[i].X) || math.Float64bits(orig[i].Y) != math.Float64bits(flat[i].Y) {
+				return fmt.Sprintf("element %d of the caller's coordinate array changed from %v to %v", i, orig[i], flat[i])
+			}
+		}
+		return ""
+	}
+}
